@@ -281,6 +281,10 @@ func (c *FnCtx) execCall(x *ssa.Call, common *ssa.CallCommon, st *State, reach *
 		}
 		for i, cp := range c.spec.CallPres {
 			if calleeName != "" && strings.Contains(calleeName, cp.Name) {
+				if c.callPreHit == nil {
+					c.callPreHit = map[int]bool{}
+				}
+				c.callPreHit[i] = true
 				tv, err := c.evalSpec(cp.E, c.envFor(st, c.entry))
 				if err != nil {
 					c.abort("callpre %d: %v", i+1, err)
@@ -396,6 +400,7 @@ func (c *FnCtx) copyOut(st *State, temps []tempObj) {
 // applyContract: assert pre, havoc modifies, assume post; returns result terms.
 func (c *FnCtx) applyContract(spec *FuncSpec, sig *types.Signature, names []string, args []TV, st *State, reach *Term, deferred bool) []TV {
 	pre := st.clone()
+	nDefs0, nAssumes0, reach0 := len(c.defs), len(c.assumes), *reach
 	env := c.envFor(st, pre)
 	env.vars = map[string]TV{}
 	env.calleePkg = spec.Pkg
@@ -466,15 +471,10 @@ func (c *FnCtx) applyContract(spec *FuncSpec, sig *types.Signature, names []stri
 		post.vars[k] = v
 	}
 	c.bindResults(post, sig, spec, results)
-	for i, cl := range spec.Ensures {
-		tv, err := c.evalSpec(cl.E, post)
-		if err != nil {
-			c.abort("callee %s ensures %d: %v", spec.Name, i+1, err)
-			return nil
-		}
-		c.assume(*reach, tv.t)
-	}
-	// ghost effects: the protocol state after the call
+	// ghost effects: the protocol state after the call. All effects read the ghost state before the
+	// call; the ensures clauses below see the state after them.
+	var ghostKeys []string
+	var ghostVals []Term
 	for _, ef := range spec.Effects {
 		tv, err := c.evalSpec(ef.E, post)
 		if err != nil {
@@ -486,7 +486,23 @@ func (c *FnCtx) applyContract(spec *FuncSpec, sig *types.Signature, names []stri
 		c.heap(c.entry, k, SBool)
 		nv := c.fresh("gh_"+ef.Name[1:], SBool)
 		c.define(eq(nv, tv.t))
-		st.heaps[k] = nv
+		ghostKeys = append(ghostKeys, k)
+		ghostVals = append(ghostVals, nv)
+	}
+	for i, k := range ghostKeys {
+		st.heaps[k] = ghostVals[i]
+	}
+	for i, cl := range spec.Ensures {
+		tv, err := c.evalSpec(cl.E, post)
+		if err != nil {
+			c.abort("callee %s ensures %d: %v", spec.Name, i+1, err)
+			return nil
+		}
+		c.assume(*reach, tv.t)
+	}
+	// vacuity guard: the assumed postcondition must not make a live path dead
+	if len(spec.Ensures) > 0 {
+		c.coverAfterCall(calleeName, *reach, nDefs0, nAssumes0, reach0)
 	}
 	return results
 }
